@@ -68,6 +68,7 @@ inductive Err where
   | notAllBucketsCouldBeDeposited
   | vaultDoesNotExist (r : Nat)
   | insufficientBalance (r : Nat)
+  | unauthorized
 deriving DecidableEq, Repr
 
 /-- `is_deposit_allowed`. -/
@@ -162,6 +163,11 @@ def withdraw (s : Acct) (r a : Nat) : Except Err Acct :=
   | some x =>
     if a ≤ x then .ok { s with vault := fun r' => if r' = r then some (x - a) else s.vault r' }
     else .error (.insufficientBalance r)
+
+/-- An owner-role method (`deposit`, `deposit_batch`, `withdraw`, the five configuration methods — see the
+regenerated method table in `Generated/C39.lean`) called by somebody who does not hold the owner role: the auth
+layer fails the call before the blueprint code runs. -/
+def ownerMethodByStranger (_s : Acct) : Except Err Acct := .error .unauthorized
 
 /-- One account call of a history. The owner methods are assumed to be called with owner auth
 (without it the call fails in the auth layer and nothing changes). -/
